@@ -236,7 +236,6 @@ Proof. reflexivity. Qed.
 Lemma meta_wrap_ext run rest d : ext_res d (meta_wrap run rest) (meta_wrap run (rest ++ d)).
 Proof.
   unfold meta_wrap, ext_res. destruct run as [|r0 rt]; [reflexivity|].
-  destruct (is_mouse_event r0); [reflexivity|].
   destruct r0; try reflexivity.
   destruct (zs_eqb name str_esc || contains_sub str_meta name); reflexivity.
 Qed.
@@ -555,8 +554,7 @@ Lemma meta_wrap_ok run rest evs rest' :
   meta_wrap run rest = OOk (evs, rest') -> evs <> [] /\ rest' = rest.
 Proof.
   unfold meta_wrap. destruct run as [|r0 rt]; [discriminate|].
-  destruct (is_mouse_event r0); [intros H; inversion H; subst; split; [discriminate|reflexivity]|].
-  destruct r0; try discriminate.
+  destruct r0; try (intros H; inversion H; subst; split; [discriminate|reflexivity]).
   destruct (zs_eqb name str_esc || contains_sub str_meta name); intros H; inversion H; subst;
     (split; [discriminate|reflexivity]).
 Qed.
@@ -1207,26 +1205,6 @@ Qed.
 (* exceptions *)
 Definition is_byte (b : Z) : Prop := 0 <= b < 256.
 
-(* events on which the meta block cannot fail *)
-Definition ev_ok (ev : event) : bool :=
-  match ev with
-  | Key _ => true
-  | Mouse _ _ _ _ => is_mouse_event ev
-  | _ => false
-  end.
-
-Lemma x10_event_ok k0 k1 k2 : ev_ok (x10_event k0 k1 k2) = true.
-Proof. unfold x10_event. break_match; vm_compute; reflexivity. Qed.
-
-Lemma sgr_event_ok body t ev : sgr_event body t = OOk (Some ev) -> ev_ok ev = true.
-Proof.
-  unfold sgr_event.
-  destruct (map py_int (split_on 59 body)) as [|[b|] [|[x|] [|[y|] [|? ?]]]]; try discriminate.
-  destruct (t =? 77).
-  - intros H; inversion H; subst. break_match; vm_compute; reflexivity.
-  - destruct (t =? 109); [|discriminate]. intros H; inversion H; subst. break_match; vm_compute; reflexivity.
-Qed.
-
 Lemma sgr_event_no_err body t e : t = 77 \/ t = 109 -> sgr_event body t <> OErr e.
 Proof.
   intros Ht. unfold sgr_event.
@@ -1236,74 +1214,46 @@ Proof.
   - change (109 =? 77) with false. change (109 =? 109) with true. discriminate.
 Qed.
 
-Lemma read_sgrmouse_info_res keys more :
-  match read_sgrmouse_info keys more with
-  | OOk (Some (ev, _)) => ev_ok ev = true
-  | OErr _ => False
-  | _ => True
-  end.
+Lemma read_sgrmouse_info_no_err keys more e : read_sgrmouse_info keys more <> OErr e.
 Proof.
-  unfold read_sgrmouse_info. destruct keys as [|k keys]; [destruct more; exact I|].
-  destruct (sgr_scan (k :: keys)) as [[[v t] r]|] eqn:E; [|destruct more; exact I].
-  pose proof (sgr_event_no_err v t) as Hn. pose proof (sgr_event_ok v t) as Ho.
-  destruct (sgr_event v t) as [[ev|]| |e]; auto.
-  eapply Hn; [eapply sgr_scan_term; exact E|reflexivity].
+  unfold read_sgrmouse_info. destruct keys as [|k keys]; [destruct more; discriminate|].
+  destruct (sgr_scan (k :: keys)) as [[[v t] r]|] eqn:E; [|destruct more; discriminate].
+  pose proof (sgr_event_no_err v t e (sgr_scan_term _ _ _ _ E)) as Hn.
+  destruct (sgr_event v t) as [[ev|]| |e']; try discriminate. congruence.
 Qed.
 
-Lemma read_mouse_info_res keys more :
-  match read_mouse_info keys more with
-  | OOk (Some (ev, _)) => ev_ok ev = true
-  | OErr _ => False
-  | _ => True
-  end.
+Lemma read_mouse_info_no_err keys more e : read_mouse_info keys more <> OErr e.
+Proof. destruct keys as [|k0 [|k1 [|k2 r]]]; cbn [read_mouse_info]; destruct more; discriminate. Qed.
+
+Lemma get_recurse_no_err keys : forall root more e, get_recurse root keys more <> OErr e.
 Proof.
-  destruct keys as [|k0 [|k1 [|k2 r]]]; cbn [read_mouse_info]; try (destruct more; exact I).
-  apply x10_event_ok.
+  induction keys as [|k keys IH]; intros root more e; destruct root as [name|ch].
+  - rewrite get_recurse_leaf. destruct (zs_eqb name str_mouse); [apply read_mouse_info_no_err|].
+    destruct (zs_eqb name str_sgrmouse); [apply read_sgrmouse_info_no_err|discriminate].
+  - cbn. destruct more; discriminate.
+  - rewrite get_recurse_leaf. destruct (zs_eqb name str_mouse); [apply read_mouse_info_no_err|].
+    destruct (zs_eqb name str_sgrmouse); [apply read_sgrmouse_info_no_err|discriminate].
+  - rewrite get_recurse_node. destruct (assoc k ch); [apply IH|discriminate].
 Qed.
 
-Lemma get_recurse_res keys : forall root more,
-  match get_recurse root keys more with
-  | OOk (Some (ev, _)) => ev_ok ev = true
-  | OErr _ => False
-  | _ => True
-  end.
+Lemma read_cursor_position_no_err keys more e : read_cursor_position keys more <> OErr e.
 Proof.
-  induction keys as [|k keys IH]; intros root more; destruct root as [name|ch].
-  - rewrite get_recurse_leaf. destruct (zs_eqb name str_mouse); [apply read_mouse_info_res|].
-    destruct (zs_eqb name str_sgrmouse); [apply read_sgrmouse_info_res|reflexivity].
-  - cbn. destruct more; exact I.
-  - rewrite get_recurse_leaf. destruct (zs_eqb name str_mouse); [apply read_mouse_info_res|].
-    destruct (zs_eqb name str_sgrmouse); [apply read_sgrmouse_info_res|reflexivity].
-  - rewrite get_recurse_node. destruct (assoc k ch); [apply IH|exact I].
+  unfold read_cursor_position. destruct keys as [|k0 r]; [destruct more; discriminate|].
+  destruct (negb (k0 =? 91)); [discriminate|].
+  destruct (cpr_y r 0) as [|y r2|y]; try (destruct more; discriminate); try discriminate.
+  destruct r2 as [|k2 r2]; [destruct more; discriminate|].
+  destruct (cpr_x (k2 :: r2) 0) as [|x rest|]; try (destruct more; discriminate); discriminate.
 Qed.
 
-Lemma read_cursor_position_res keys more :
-  match read_cursor_position keys more with
-  | OOk (Some (ev, _)) => exists x y, ev = CursorPos x y
-  | OErr _ => False
-  | _ => True
-  end.
+(* the trie never raises *)
+Lemma trie_get_no_err keys more e : trie_get keys more <> OErr e.
 Proof.
-  unfold read_cursor_position. destruct keys as [|k0 r]; [destruct more; exact I|].
-  destruct (negb (k0 =? 91)); [exact I|].
-  destruct (cpr_y r 0) as [|y r2|y]; try (destruct more; exact I).
-  destruct r2 as [|k2 r2]; [destruct more; exact I|].
-  destruct (cpr_x (k2 :: r2) 0) as [|x rest|]; try (destruct more; exact I).
-  eexists; eexists; reflexivity.
-Qed.
-
-(* the trie never raises; what it returns is a key name, a mouse event, or a cursor position *)
-Lemma trie_get_res keys more :
-  match trie_get keys more with
-  | OOk (Some (ev, _)) => ev_ok ev = true \/ exists x y, ev = CursorPos x y
-  | OErr _ => False
-  | _ => True
-  end.
-Proof.
-  unfold trie_get, trie_get_in. pose proof (get_recurse_res keys input_trie more) as H.
-  destruct (get_recurse input_trie keys more) as [[[ev rest]|]| |e]; auto.
-  pose proof (read_cursor_position_res keys more) as H2.
-  destruct (read_cursor_position keys more) as [[[ev rest]|]| |e]; auto.
+  unfold trie_get, trie_get_in. pose proof (get_recurse_no_err keys input_trie more e) as H.
+  destruct (get_recurse input_trie keys more) as [[[ev rest]|]| |e'].
+  - discriminate.
+  - apply read_cursor_position_no_err.
+  - discriminate.
+  - congruence.
 Qed.
 
 Lemma wide_step_no_err em code tl more e : wide_step em code tl more <> Some (OErr e).
@@ -1312,101 +1262,17 @@ Proof. unfold wide_step. break_match; discriminate. Qed.
 Lemma utf8_step_no_err em code tl more e : utf8_step em code tl more <> Some (OErr e).
 Proof. unfold utf8_step. break_match; discriminate. Qed.
 
-Lemma wide_step_keys em code tl more evs rest :
-  wide_step em code tl more = Some (OOk (evs, rest)) -> exists s, evs = [Key s].
-Proof. unfold wide_step. break_match; try discriminate. intros H; inversion H; subst. eexists; reflexivity. Qed.
-
-Lemma utf8_step_keys em code tl more evs rest :
-  utf8_step em code tl more = Some (OOk (evs, rest)) -> exists s, evs = [Key s].
+Lemma meta_wrap_err run rest e : meta_wrap run rest = OErr e -> run = [].
 Proof.
-  unfold utf8_step, angle. break_match; try discriminate; intros H; inversion H; subst; eexists; reflexivity.
-Qed.
-
-(* _keyconv maps only -1 to None (by computation on the generated table) *)
-Lemma assoc_in {B} k (l : list (Z * B)) v : assoc k l = Some v -> In (k, v) l.
-Proof.
-  induction l as [|[k' v'] l IH]; unfold assoc; fold (@assoc B); [discriminate|].
-  destruct (k =? k') eqn:E; [apply Z.eqb_eq in E; subst; intros H; inversion H; left; reflexivity|].
-  intros H. right. apply IH; exact H.
-Qed.
-
-Lemma keyconv_none_negative :
-  forallb (fun kv => match snd kv with None => fst kv <? 0 | Some _ => true end) keyconv = true.
-Proof. vm_compute. reflexivity. Qed.
-
-Lemma keyconv_byte code v : 0 <= code -> assoc code keyconv = Some v -> exists n, v = Some n.
-Proof.
-  intros Hc H. apply assoc_in in H. pose proof keyconv_none_negative as K.
-  rewrite forallb_forall in K. specialize (K _ H). cbn [fst snd] in K.
-  destruct v as [n|]; [exists n; reflexivity|]. apply Z.ltb_lt in K. lia.
-Qed.
-
-Lemma meta_wrap_first_key run rest evs rest' :
-  meta_wrap run rest = OOk (evs, rest') -> exists s rt, evs = Key s :: rt.
-Proof.
-  unfold meta_wrap. destruct run as [|r0 rt]; [discriminate|].
-  destruct (is_mouse_event r0); [intros H; inversion H; subst; eexists; eexists; reflexivity|].
+  unfold meta_wrap. destruct run as [|r0 rt]; [reflexivity|].
   destruct r0; try discriminate.
-  destruct (zs_eqb name str_esc || contains_sub str_meta name); intros H; inversion H; subst;
-    eexists; eexists; reflexivity.
-Qed.
-
-(* the first reported event is harmless for an enclosing ESC, unless it is a cursor position report
-   that came straight from the trie *)
-Lemma process_first_event em c more r0 rt rest :
-  Forall is_byte c ->
-  process_keyqueue em c more = OOk (r0 :: rt, rest) ->
-  ev_ok r0 = true \/
-  exists x y tl, r0 = CursorPos x y /\ rt = [] /\ c = 27 :: tl /\ trie_get tl more = OOk (Some (CursorPos x y, rest)).
-Proof.
-  intros Hb. destruct c as [|code tl]; [cbn; discriminate|].
-  inversion Hb as [|? ? Hcode Htl]; subst. destruct Hcode as [Hc0 Hc1].
-  rewrite process_eq.
-  destruct ((32 <=? code) && (code <=? 126)); [intros H; inversion H; subst; left; reflexivity|].
-  destruct (assoc code keyconv) as [v|] eqn:Ek.
-  { destruct (keyconv_byte _ _ Hc0 Ek) as [n ->]. intros H; inversion H; subst. left; reflexivity. }
-  destruct ((0 <? code) && (code <? 27)); [intros H; inversion H; subst; left; reflexivity|].
-  destruct ((27 <? code) && (code <? 32)); [intros H; inversion H; subst; left; reflexivity|].
-  destruct (wide_step em code tl more) as [[[evs' rest']| |e]|] eqn:Ew.
-  2: discriminate. 2: discriminate.
-  { destruct (wide_step_keys _ _ _ _ _ _ Ew) as [s ->]. intros H; inversion H; subst. left; reflexivity. }
-  destruct (utf8_step em code tl more) as [[[evs' rest']| |e]|] eqn:Eu.
-  2: discriminate. 2: discriminate.
-  { destruct (utf8_step_keys _ _ _ _ _ _ Eu) as [s ->]. intros H; inversion H; subst. left; reflexivity. }
-  destruct ((127 <? code) && (code <? 256)); [intros H; inversion H; subst; left; reflexivity|].
-  destruct (negb (code =? 27)) eqn:E27; [intros H; inversion H; subst; left; reflexivity|].
-  apply negb_false_iff, Z.eqb_eq in E27. subst code.
-  pose proof (trie_get_res tl more) as Hr.
-  destruct (trie_get tl more) as [[[ev rest']|]| |e] eqn:Et.
-  3: discriminate. 3: discriminate.
-  { intros H; inversion H; subst. destruct Hr as [Hr|[x [y ->]]]; [left; exact Hr|].
-    right. exists x, y, tl. auto. }
-  destruct tl as [|k tl']; [intros H; inversion H; subst; left; reflexivity|].
-  destruct (process_keyqueue em (k :: tl') more) as [[run rest']| |e].
-  2: discriminate. 2: discriminate.
-  intros H. destruct (meta_wrap_first_key _ _ _ _ H) as [s [rt' E]]. inversion E; subst. left; reflexivity.
-Qed.
-
-Lemma meta_wrap_err run rest e :
-  meta_wrap run rest = OErr e ->
-  run = [] \/ (e = AttributeErrorK /\ exists r0 rt, run = r0 :: rt /\ ev_ok r0 = false).
-Proof.
-  unfold meta_wrap. destruct run as [|r0 rt]; [left; reflexivity|].
-  destruct (is_mouse_event r0) eqn:Em; [discriminate|].
-  destruct r0; try (intros H; inversion H; subst; right; split; [reflexivity|]; eexists; eexists; split; [reflexivity|]; cbn [ev_ok]; try reflexivity; exact Em).
   destruct (zs_eqb name str_esc || contains_sub str_meta name); discriminate.
 Qed.
 
-(* never_raises, partial form: a non-empty byte string can make process_keyqueue raise in exactly
-   one way - AttributeError, when one or more ESC bytes precede a complete cursor position report *)
-Lemma process_err_shape em more : forall c e,
-  Forall is_byte c -> c <> [] -> process_keyqueue em c more = OErr e ->
-  e = AttributeErrorK /\
-  exists n tl x y rest, (1 <= n)%nat /\ c = repeat 27 n ++ 27 :: tl /\
-    trie_get tl more = OOk (Some (CursorPos x y, rest)).
+(* never_raises: on a non-empty code list process_keyqueue returns or asks for more input *)
+Lemma process_no_err em more : forall c e, c <> [] -> process_keyqueue em c more <> OErr e.
 Proof.
-  induction c as [|code tl IH]; intros e Hb Hne; [congruence|].
-  inversion Hb as [|? ? Hcode Htl]; subst.
+  induction c as [|code tl IH]; intros e Hne; [congruence|].
   rewrite process_eq.
   destruct ((32 <=? code) && (code <=? 126)); [discriminate|].
   destruct (assoc code keyconv); [discriminate|].
@@ -1414,58 +1280,33 @@ Proof.
   destruct ((27 <? code) && (code <? 32)); [discriminate|].
   pose proof (wide_step_no_err em code tl more) as Hw.
   destruct (wide_step em code tl more) as [[[evs' rest']| |e']|].
-  1: discriminate. 1: discriminate. 1: intros _; exfalso; eapply Hw; reflexivity.
+  1: discriminate. 1: discriminate. 1: intros _; eapply Hw; reflexivity.
   pose proof (utf8_step_no_err em code tl more) as Hu.
   destruct (utf8_step em code tl more) as [[[evs' rest']| |e']|].
-  1: discriminate. 1: discriminate. 1: intros _; exfalso; eapply Hu; reflexivity.
+  1: discriminate. 1: discriminate. 1: intros _; eapply Hu; reflexivity.
   destruct ((127 <? code) && (code <? 256)); [discriminate|].
-  destruct (negb (code =? 27)) eqn:E27; [discriminate|].
-  apply negb_false_iff, Z.eqb_eq in E27. subst code.
-  pose proof (trie_get_res tl more) as Hr.
+  destruct (negb (code =? 27)); [discriminate|].
+  pose proof (trie_get_no_err tl more) as Hr.
   destruct (trie_get tl more) as [[[ev rest']|]| |e'].
-  1: discriminate. 2: discriminate. 2: contradiction.
+  1: discriminate. 2: discriminate. 2: intros _; eapply Hr; reflexivity.
   destruct tl as [|k tl']; [discriminate|].
   destruct (process_keyqueue em (k :: tl') more) as [[run rest']| |e'] eqn:Ep.
-  - intros H. apply meta_wrap_err in H. destruct H as [->|[-> [r0 [rt [-> Hok]]]]].
-    + destruct (process_progress _ _ _ _ _ Ep) as [Hn _]. congruence.
-    + split; [reflexivity|].
-      destruct (process_first_event _ _ _ _ _ _ Htl Ep) as [Hk|[x [y [tl2 [-> [_ [E2 Ht2]]]]]]]; [congruence|].
-      exists 1%nat, tl2, x, y, rest'. split; [lia|]. split; [cbn; rewrite E2; reflexivity|exact Ht2].
+  - intros H. apply meta_wrap_err in H. subst run.
+    destruct (process_progress _ _ _ _ _ Ep) as [Hn _]. congruence.
   - discriminate.
-  - intros H; inversion H; subst.
-    destruct (IH e Htl ltac:(discriminate) eq_refl) as [-> [n [tl2 [x [y [r [Hn [E2 Ht2]]]]]]]].
-    split; [reflexivity|]. exists (S n), tl2, x, y, r. split; [lia|]. split; [cbn; rewrite E2; reflexivity|exact Ht2].
+  - intros _. eapply (IH e'); [discriminate|reflexivity].
 Qed.
 
-Lemma process_no_err_unless_double_esc em c more e :
-  Forall is_byte c -> c <> [] -> (forall t, c <> 27 :: 27 :: t) -> process_keyqueue em c more <> OErr e.
+Lemma decode_no_err em more : forall codes e, decode em codes more <> PErr e.
 Proof.
-  intros Hb Hne Hd H. destruct (process_err_shape em more c e Hb Hne H) as [_ [n [tl [x [y [r [Hn [E _]]]]]]]].
-  destruct n as [|n]; [lia|]. cbn in E. destruct n; cbn in E; eapply Hd; exact E.
-Qed.
-
-(* stream level: a byte stream without two adjacent ESC bytes never raises, however it is read *)
-Definition no_double_esc (l : list Z) : Prop := forall a b, l <> a ++ 27 :: 27 :: b.
-
-Lemma no_double_esc_suffix p l : no_double_esc (p ++ l) -> no_double_esc l.
-Proof. intros H a b E. apply (H (p ++ a) b). rewrite E, app_assoc. reflexivity. Qed.
-
-Lemma decode_no_err em more : forall codes e,
-  Forall is_byte codes -> no_double_esc codes -> decode em codes more <> PErr e.
-Proof.
-  apply (list_len_ind (fun codes => forall e, Forall is_byte codes -> no_double_esc codes ->
-           decode em codes more <> PErr e)).
-  intros codes IH e Hb Hd. destruct codes as [|c tl]; [rewrite decode_nil; discriminate|].
+  apply (list_len_ind (fun codes => forall e, decode em codes more <> PErr e)).
+  intros codes IH e. destruct codes as [|c tl]; [rewrite decode_nil; discriminate|].
   rewrite decode_cons by discriminate.
+  pose proof (process_no_err em more (c :: tl)) as Hp.
   destruct (process_keyqueue em (c :: tl) more) as [[run rest]| |e'] eqn:E; try discriminate.
-  - destruct (process_progress _ _ _ _ _ E) as [_ [p [_ Hp]]].
-    assert (Hb' : Forall is_byte rest).
-    { rewrite Hp in Hb. apply Forall_app in Hb. tauto. }
-    assert (Hd' : no_double_esc rest) by (rewrite Hp in Hd; eapply no_double_esc_suffix; exact Hd).
-    pose proof (IH rest (process_shorter _ _ _ _ _ E) e Hb' Hd') as Hn.
+  - pose proof (IH rest (process_shorter _ _ _ _ _ E) e) as Hn.
     destruct (decode em rest more); cbn; congruence.
-  - exfalso. eapply (process_no_err_unless_double_esc em (c :: tl) more e' Hb); [discriminate| |exact E].
-    intros t Et. apply (Hd [] t). exact Et.
+  - exfalso. eapply Hp; [discriminate|reflexivity].
 Qed.
 
 (* ------------------------------------------------------------------ *)
@@ -1490,35 +1331,23 @@ Lemma decided_ignores_flag_proof em c r :
   process_keyqueue em c true = OOk r -> process_keyqueue em c false = OOk r.
 Proof. intros H. pose proof (process_flag em c) as Hf. rewrite H in Hf. exact Hf. Qed.
 
-Lemma no_double_esc_prefix l s : no_double_esc (l ++ s) -> no_double_esc l.
-Proof. intros H a b E. apply (H a (b ++ s)). rewrite E, <- app_assoc. reflexivity. Qed.
-
-Lemma run_no_err em : forall ops st,
-  Forall is_byte (st ++ concat (map feed_bytes ops)) ->
-  no_double_esc (st ++ concat (map feed_bytes ops)) ->
-  snd (run em st ops) = None.
+(* a hooked Screen never raises, whatever is read and whenever the alarm fires *)
+Lemma step_no_err em st o e : step em st o <> Err e.
 Proof.
-  induction ops as [|o ops IH]; intros st Hb Hd; [reflexivity|].
-  rewrite run_cons. cbn [map concat] in Hb, Hd. rewrite app_assoc in Hb, Hd.
-  assert (K : forall cs st', step em st o = Ok (cs, st') ->
-              snd (let '(cs', st'', e) := run em st' ops in (cs ++ cs', st'', e)) = None).
-  { intros cs st' Hs. pose proof (step_conserves _ _ _ _ _ Hs) as Hc.
-    specialize (IH st'). rewrite <- Hc, <- app_assoc in Hb, Hd.
-    apply Forall_app in Hb. destruct Hb as [_ Hb]. apply no_double_esc_suffix in Hd.
-    specialize (IH Hb Hd). destruct (run em st' ops) as [[a b] c]. exact IH. }
   destruct o as [bs|].
-  - cbn [feed_bytes] in *. rewrite step_feed in *.
-    apply Forall_app in Hb. destruct Hb as [Hb _]. apply no_double_esc_prefix in Hd.
-    pose proof (decode_no_err em true (st ++ bs)) as Hn. pose proof (decode_not_fuel em true (st ++ bs)) as Hf.
-    destruct (decode em (st ++ bs) true) as [d|d r|e|]; try (apply K; reflexivity).
-    + exfalso. eapply Hn; [exact Hb|exact Hd|reflexivity].
-    + congruence.
-  - cbn [feed_bytes] in *. rewrite app_nil_r in Hb, Hd.
-    destruct st as [|c0 tl]; [apply K; reflexivity|].
+  - rewrite step_feed. pose proof (decode_no_err em true (st ++ bs)) as Hn.
+    pose proof (decode_not_fuel em true (st ++ bs)) as Hf.
+    destruct (decode em (st ++ bs) true) as [d|d r|e0|]; try discriminate; [exfalso; eapply Hn; reflexivity|congruence].
+  - destruct st as [|c0 tl]; [discriminate|].
     pose proof (timeout_step em (c0 :: tl) ltac:(discriminate)) as Ht.
-    apply Forall_app in Hb. destruct Hb as [Hb _]. apply no_double_esc_prefix in Hd.
     pose proof (decode_no_err em false (c0 :: tl)) as Hn.
-    destruct (decode em (c0 :: tl) false) as [d|d r|e|]; try contradiction.
-    + rewrite Ht. apply (K _ _ Ht).
-    + exfalso. eapply Hn; [exact Hb|exact Hd|reflexivity].
+    destruct (decode em (c0 :: tl) false) as [d|d r|e0|]; try contradiction; [rewrite Ht; discriminate|exfalso; eapply Hn; reflexivity].
+Qed.
+
+Lemma run_no_err em : forall ops st, snd (run em st ops) = None.
+Proof.
+  induction ops as [|o ops IH]; intros st; [reflexivity|].
+  rewrite run_cons. pose proof (step_no_err em st o) as Hs.
+  destruct (step em st o) as [[cs st']|e]; [|exfalso; eapply Hs; reflexivity].
+  specialize (IH st'). destruct (run em st' ops) as [[a b] c]. exact IH.
 Qed.
